@@ -12,7 +12,7 @@
    of the two real runs (the laws are facts about CPython and about observing handlers; validated there, not proved). *)
 From Coq Require Import List ZArith NArith Bool.
 Import ListNotations.
-From PyccoloV Require model.FragSem proofs.FragSemProofs.
+From PyccoloV Require model.FragSem proofs.FragSemProofs model.FragFun model.FragProg proofs.FragProgProofs.
 From PyccoloV Require Import gen.PyAst gen.Ids gen.Events model.Tree model.Erase model.Prune model.RwFrag proofs.EraseSound proofs.PruneSound
   proofs.RwFragProofs proofs.RwFragProj.
 
@@ -80,3 +80,26 @@ Theorem C03_frag_projection : forall binop cmpop unop truth cval is_and (K E : r
   FragSem.filter_log K (FragSem.s_log (FragSem.exec_l binop cmpop unop truth cval is_and (FragSem.instr_module K body) r sv')).
 Proof. exact FragSemProofs.frag_projection. Qed.
 Print Assumptions C03_frag_projection.
+
+(* ... and with LOOPS AND FUNCTIONS (model/FragProg.v): as long as no handler touches a guard (the guards stay in any fixed state G), the stream a
+   tracer receives for its events K from the program instrumented for any superset E is the stream it receives when K alone is subscribed -
+   for all primitive operations, guard states, guard settings, fuels, source modules and environments.  (When handlers do flip guards the two
+   runs can differ legitimately: the handlers of E see more events and may flip at other moments; that dependence is C10's subject.) *)
+Theorem C03_prog_projection : forall binop cmpop unop truth cval is_and fuel (K E : rcfg) (G : FragProg.guard -> bool) ge m d r sv sv',
+  forallb FragProgProofs.psrc_t m = true -> (forall e, sub K e = true -> sub E e = true) ->
+  FragSem.filter_log K (FragProg.p_log (FragProg.prun binop cmpop unop truth cval is_and E (fun _ g => G g) fuel d (FragProg.pinstr_module E ge m) r sv)) =
+  FragSem.filter_log K (FragProg.p_log (FragProg.prun binop cmpop unop truth cval is_and K (fun _ g => G g) fuel d (FragProg.pinstr_module K ge m) r sv')).
+Proof. exact FragProgProofs.prog_projection. Qed.
+Print Assumptions C03_prog_projection.
+
+(* non-vacuity: `def f(p): while p: return p` / `a = f(1)`: with load_name alone 3 loads are delivered; with everything subscribed 27 events, of
+   which the same 3 loads *)
+Example C03_prog_projection_nonvacuous :
+  let m := [FragProg.PDef 1 100 [101] [FragProg.PWhile 4 (FragSem.XName 5 101) [FragProg.PReturn 7 (Some (FragFun.RExp (FragSem.XName 8 101)))] []];
+            FragProg.PAssign 10 [102] (FragFun.RCall 13 false false false (FragSem.XName 14 100) [FragSem.XConst 16 (SInt 1%Z)])]%N in
+  let K := {| sub := fun e => event_eqb e E_load_name |} in
+  let E := {| sub := fun _ => true |} in
+  let run c := FragProg.p_log (FragProg.prun FragSem.Py.binop FragSem.Py.cmpop FragSem.Py.unop FragSem.Py.truth FragSem.Py.cval FragSem.Py.is_and c (fun _ _ => true) 5 3
+                                 (FragProg.pinstr_module c true m) (fun _ => None) FragSem.VNone) in
+  forallb FragProgProofs.psrc_t m = true /\ length (run K) = 3%nat /\ FragSem.filter_log K (run E) = run K /\ Nat.ltb 20 (length (run E)) = true.
+Proof. vm_compute. repeat split; reflexivity. Qed.
